@@ -242,6 +242,10 @@ impl BlockMode for RecBm {
         let e: [u8; 0] = [];
         rec_call!(self, "many_closure", [mode], e, buf, self.inner.many_closure(mode, buf), unit_s)
     }
+    fn many_script(&mut self, script: &[u8], buf: &mut [u8]) -> usize {
+        let e: [u8; 0] = [];
+        rec_call!(self, "many_script", [hex(script)], e, buf, self.inner.many_script(script, buf), |n: &usize| n.to_string())
+    }
     fn iv_state(&self) -> Vec<u8> {
         tick();
         let v = self.inner.iv_state();
@@ -369,6 +373,10 @@ impl Core for RecCore {
     fn write_blocks_closure(&mut self, mode: u8, out: &mut [u8]) {
         let e: [u8; 0] = [];
         rec_call!(self, "write_blocks_closure", [mode], e, out, self.inner.write_blocks_closure(mode, out), unit_s)
+    }
+    fn write_script(&mut self, script: &[u8], out: &mut [u8]) -> usize {
+        let e: [u8; 0] = [];
+        rec_call!(self, "write_script", [hex(script)], e, out, self.inner.write_script(script, out), |n: &usize| n.to_string())
     }
     fn partial(self: Box<Self>, k: Kind, inp: &[u8], out: &mut [u8]) -> R {
         tick();
@@ -803,6 +811,12 @@ pub fn replay(reg: &Registry, ops: &[Op]) -> Result<Vec<Op>, String> {
                     o2.out_post = out;
                     Obj::Bm(b)
                 }
+                "many_script" => {
+                    let script = base::json::unhex(a(0)?).ok_or("bad script")?;
+                    o2.ret = b.many_script(&script, &mut out).to_string();
+                    o2.out_post = out;
+                    Obj::Bm(b)
+                }
                 "iv_state" => {
                     o2.ret = hex(&b.iv_state());
                     Obj::Bm(b)
@@ -870,6 +884,12 @@ pub fn replay(reg: &Registry, ops: &[Op]) -> Result<Vec<Op>, String> {
                 "write_blocks_closure" => {
                     let mode: u8 = a(0)?.parse().map_err(|_| "bad mode")?;
                     c.write_blocks_closure(mode, &mut out);
+                    o2.out_post = out;
+                    Obj::Core(c)
+                }
+                "write_script" => {
+                    let script = base::json::unhex(a(0)?).ok_or("bad script")?;
+                    o2.ret = c.write_script(&script, &mut out).to_string();
                     o2.out_post = out;
                     Obj::Core(c)
                 }
